@@ -1,4 +1,5 @@
 mod big32;
+mod galloc;
 mod cmpmon;
 mod conc;
 mod engines;
@@ -8,6 +9,9 @@ mod ops;
 mod shim;
 mod sweeps;
 mod util;
+
+#[global_allocator]
+static GLOBAL: galloc::Counting = galloc::Counting;
 
 use explore::*;
 use genops::Profile;
